@@ -18,7 +18,7 @@ var commonAssumptions = []string{
 var plans = map[string]plan{
 	"C08": {
 		Level:    "exploration",
-		Rule:     "case = (requested type, input bytes) run through all 5 skipping facilities (7 configurations); inputs: bounded-exhaustive strings over a 15-symbol grammar alphabet, mutated valid encodings (truncate/substitute/size-window/splice/insert/delete), huge size fields, nesting 1..70 per container kind and through every entry position, size fields 0x7fffffff..0xffffffff really followed by that many (untouched, mapped) bytes, a follow-up call on the same decoder after every rejection. Non-trivial iff the oracle rejects the input or accepts it with nesting >= 2; distinct by (type, bytes). Also: one SkipDecoder whose reader is also read directly between two Next calls (values and raw bytes alternating on bytes-backed, stream-backed and foreign readers, stream possibly ending in a cut-short value); the stream-backed skippers run over standard-library readers (bytes.Reader, strings.Reader, bufio, iotest, Limit/Multi/Section) a quarter of the time. A struct walked field by field on ReaderSkipDecoder: headers with the exported SkipN, values with Next. The exported skip template run directly over each of the three decoders (accept / reject judged).",
+		Rule:     "case = (requested type, input bytes) run through all 5 skipping facilities (7 configurations); inputs: bounded-exhaustive strings over a 15-symbol grammar alphabet, mutated valid encodings (truncate/substitute/size-window/splice/insert/delete), huge size fields, nesting 1..70 per container kind and through every entry position, size fields 0x7fffffff..0xffffffff really followed by that many (untouched, mapped) bytes, a follow-up call on the same decoder after every rejection. Non-trivial iff the oracle rejects the input or accepts it with nesting >= 2; distinct by (type, bytes). Also: one SkipDecoder whose reader is also read directly between two Next calls (values and raw bytes alternating on bytes-backed, stream-backed and foreign readers, stream possibly ending in a cut-short value); the stream-backed skippers run over standard-library readers (bytes.Reader, strings.Reader, bufio, iotest, Limit/Multi/Section) a quarter of the time. A struct walked field by field on ReaderSkipDecoder: headers with the exported SkipN, values with Next. The exported skip template run directly over each of the three decoders (accept / reject judged). Several values in a row on one BytesSkipDecoder, the last possibly cut short, the slice ending at a guard page or being a view with the missing bytes behind it.",
 		Required: []string{"oracle-accept judged", "oracle-reject judged", "nesting>=65 cases"},
 		Quick:    []job{{"plain", 8}},
 		Thorough: []job{{"gcstress", 4}, {"plain", 16}, {"race", 4}, {"go126", 4}, {"fuzz", 3}},
@@ -81,7 +81,7 @@ var plans = map[string]plan{
 	},
 	"C07": {
 		Level:    "exploration",
-		Rule:     "case = load/reload/query history on StrMap[int], StrMap[struct] and Str2Str instances: key sets of sizes around every entry of the prime table (0..1000, thorough up to 2*10^5) with adversarial key shapes (empty key, all proper prefixes of a long key, shared prefixes/suffixes, one-bit near-duplicates, mixed and equal lengths), LoadFromMap/LoadFromSlice sequences growing and shrinking one instance, failed (length-mismatch) loads in between, never-loaded and empty maps; probes = every key, key +/- one byte, prefixes, suffixes, bit-flips, keys of earlier rounds, random strings; every answer (Get, Len, Item enumeration) compared with a Go map. Fresh instances per case give fresh hash seeds. Non-trivial iff n >= 2 or a reload or an empty/prefix key; distinct by case index (hash seeds differ per instance). Also: loads with one key twice (outside the domain: judged only when refused - a refused load changes nothing). A load that fails with a recovered panic (2^48 key bytes) is a failed load too. One instance reloaded 2^16, 2^17 and 2^16+9 times between two 60-key loads.",
+		Rule:     "case = load/reload/query history on StrMap[int], StrMap[struct] and Str2Str instances: key sets of sizes around every entry of the prime table (0..1000, thorough up to 2*10^5) with adversarial key shapes (empty key, all proper prefixes of a long key, shared prefixes/suffixes, one-bit near-duplicates, mixed and equal lengths), LoadFromMap/LoadFromSlice sequences growing and shrinking one instance, failed (length-mismatch) loads in between, never-loaded and empty maps; probes = every key, key +/- one byte, prefixes, suffixes, bit-flips, keys of earlier rounds, random strings; every answer (Get, Len, Item enumeration) compared with a Go map. Fresh instances per case give fresh hash seeds. Non-trivial iff n >= 2 or a reload or an empty/prefix key; distinct by case index (hash seeds differ per instance). Also: loads with one key twice (outside the domain: judged only when refused - a refused load changes nothing). A load that fails with a recovered panic (2^48 key bytes) is a failed load too. One instance reloaded 2^16, 2^17 and 2^16+9 times between two 60-key loads. The struct value type is 88 bytes (ints cover small values).",
 		Required: []string{"map queries compared", "failed loads checked", "never-loaded/empty cases", "load cycles"},
 		Quick:    []job{{"plain", 8}, {"hooks", 2}},
 		Thorough: []job{{"gcstress", 4}, {"plain", 16}, {"race", 4}, {"hooks", 4}},
@@ -95,7 +95,7 @@ var plans = map[string]plan{
 	},
 	"C12": {
 		Level:    "exploration",
-		Rule:     "case = (method name of 0..70000 arbitrary bytes, message type, sequence id) through WriteMessageBegin / AppendMessageBegin / BufferWriter.WriteMessageBegin vs an independent encoder and MessageBeginLength, read back by Binary.ReadMessageBegin (guard-page arena) and BufferReader.ReadMessageBegin over a fragmenting source; all 65536 message types; all 65536 first-word high halves x 5 low halves (must be accepted iff 0x8001, else BAD_VERSION on both readers); every truncation point and negative name lengths (both readers and UnmarshalFastMsg must fail); MarshalFastMsg -> UnmarshalFastMsg round trips with BaseResp payloads; EXCEPTION messages must surface as *ApplicationException with type id and text and leave the caller's struct untouched (also when the exception body is cut at any point: an error, nothing decoded). Every case is non-trivial; distinct by its parameters. Also: every header is also read from a source holding nothing else (no Read call after its last byte was delivered); an unmarked first word in front of a well-formed header must still be a bad version for both readers and UnmarshalFastMsg. Application-defined payload structs (a linked chain with its own codec, 1..1000 levels deep, byte fields around the no-copy threshold). Exception bodies as other Thrift implementations write them (type id first, unknown fields, empty message omitted).",
+		Rule:     "case = (method name of 0..70000 arbitrary bytes, message type, sequence id) through WriteMessageBegin / AppendMessageBegin / BufferWriter.WriteMessageBegin vs an independent encoder and MessageBeginLength, read back by Binary.ReadMessageBegin (guard-page arena) and BufferReader.ReadMessageBegin over a fragmenting source; all 65536 message types; all 65536 first-word high halves x 5 low halves (must be accepted iff 0x8001, else BAD_VERSION on both readers); every truncation point and negative name lengths (both readers and UnmarshalFastMsg must fail); MarshalFastMsg -> UnmarshalFastMsg round trips with BaseResp payloads; EXCEPTION messages must surface as *ApplicationException with type id and text and leave the caller's struct untouched (also when the exception body is cut at any point: an error, nothing decoded). Every case is non-trivial; distinct by its parameters. Also: every header is also read from a source holding nothing else (no Read call after its last byte was delivered); an unmarked first word in front of a well-formed header must still be a bad version for both readers and UnmarshalFastMsg. Application-defined payload structs (a linked chain with its own codec, 1..1000 levels deep, byte fields around the no-copy threshold). Exception bodies as other Thrift implementations write them (type id first, unknown fields, empty message omitted). Exception bodies in which other implementations reuse the ids 1 and 2 with other types.",
 		Required: []string{"envelopes round-tripped", "first words tried", "truncation sweeps", "messages round-tripped", "exception messages"},
 		Quick:    []job{{"plain", 8}},
 		Thorough: []job{{"gcstress", 4}, {"plain", 16}},
@@ -116,14 +116,14 @@ var plans = map[string]plan{
 	},
 	"C16": {
 		Level:    "exploration",
-		Rule:     "case = run of strings/binaries decoded by thrift.Binary (lengths over every span-allocator class: 0, <128, every power of two +-1 up to 128 KiB, larger; runs of 200..800 values wrapping the 1 MiB spans) with the span cache off and on; every returned []byte is appended to and overwritten, then the input buffer is overwritten: input, siblings and snapshots must stay intact, and returned slices (incl. spare capacity) must not overlap the input; stream reader: values of a first message retained across Release, Recycle, pool reuse by a co-tenant and the decoding of a second message through a recycled BufferReader; decoded Base / ApplicationException / unknown-field trees after their input is overwritten. Non-trivial iff length >= 1; distinct by (lengths, reader kind, span-cache setting). Also: 5 MiB (thorough 24 MiB) of values of one size class (0-127, 1-16, 128-255, 1-2 KiB bytes) all kept and re-verified; 3-8 goroutines decoding one size class at once, each overwriting its own byte slices in place (also under the race detector); values decoded by other readers while one stream reader is in the middle of a value that then fails or completes. The concurrent decoders alternate thrift.Binary and one BufferReader per value, and the cache is switched on under GOMAXPROCS(1) in half of the cases.",
+		Rule:     "case = run of strings/binaries decoded by thrift.Binary (lengths over every span-allocator class: 0, <128, every power of two +-1 up to 128 KiB, larger; runs of 200..800 values wrapping the 1 MiB spans) with the span cache off and on; every returned []byte is appended to and overwritten, then the input buffer is overwritten: input, siblings and snapshots must stay intact, and returned slices (incl. spare capacity) must not overlap the input; stream reader: values of a first message retained across Release, Recycle, pool reuse by a co-tenant and the decoding of a second message through a recycled BufferReader; decoded Base / ApplicationException / unknown-field trees after their input is overwritten. Non-trivial iff length >= 1; distinct by (lengths, reader kind, span-cache setting). Also: 5 MiB (thorough 24 MiB) of values of one size class (0-127, 1-16, 128-255, 1-2 KiB bytes) all kept and re-verified; 3-8 goroutines decoding one size class at once, each overwriting its own byte slices in place (also under the race detector); values decoded by other readers while one stream reader is in the middle of a value that then fails or completes. The concurrent decoders alternate thrift.Binary and one BufferReader per value, and the cache is switched on under GOMAXPROCS(1) in half of the cases. The kept-across-many-blocks runs are repeated through thrift.BufferReader (one reader per 64 KiB of values).",
 		Required: []string{"buffer-decoded values attacked", "stream-decoded values attacked", "structs attacked", "bytes decoded in runs"},
 		Quick:    []job{{"plain", 8}, {"race", 2}},
 		Thorough: []job{{"gcstress", 4}, {"plain", 16}, {"race", 4}, {"go126", 4}},
 	},
 	"C17": {
 		Level:    "exploration",
-		Rule:     "case = (entry point, malformed input) classified by the independent grammar oracle into cause sets {TRUNCATED, NEGATIVE, UNKNOWN_TYPE, DEPTH}: the error of Binary.Skip / Binary.Read* / ReadMessageBegin must be (or wrap) a *ProtocolException whose TypeId is in the accepted set (TRUNCATED, UNKNOWN_TYPE -> INVALID_DATA; NEGATIVE -> NEGATIVE_SIZE; bad first word -> BAD_VERSION; nesting >= 64 -> also DEPTH_LIMIT; simultaneous causes -> any). Inputs: grammar-alphabet strings (exhaustive), mutated encodings, negative sizes in every size position for all 11x11 element types, nesting 60..70. Stream reader: valid streams cut at every position with every injected error value (io.EOF, io.ErrUnexpectedEOF, two custom) with/after the final data: errors.Is(err, sourceErr) must hold for every Read*/Skip. Every case is a failure-class instance; distinct by (input, type). Also: stream failures after runs of 1..99 empty reads between the last data and the error. The stream runs release the reader between values now and then. Half of the releases between values pass a non-nil reason to Release.",
+		Rule:     "case = (entry point, malformed input) classified by the independent grammar oracle into cause sets {TRUNCATED, NEGATIVE, UNKNOWN_TYPE, DEPTH}: the error of Binary.Skip / Binary.Read* / ReadMessageBegin must be (or wrap) a *ProtocolException whose TypeId is in the accepted set (TRUNCATED, UNKNOWN_TYPE -> INVALID_DATA; NEGATIVE -> NEGATIVE_SIZE; bad first word -> BAD_VERSION; nesting >= 64 -> also DEPTH_LIMIT; simultaneous causes -> any). Inputs: grammar-alphabet strings (exhaustive), mutated encodings, negative sizes in every size position for all 11x11 element types, nesting 60..70. Stream reader: valid streams cut at every position with every injected error value (io.EOF, io.ErrUnexpectedEOF, two custom) with/after the final data: errors.Is(err, sourceErr) must hold for every Read*/Skip. Every case is a failure-class instance; distinct by (input, type). Also: stream failures after runs of 1..99 empty reads between the last data and the error. The stream runs release the reader between values now and then. Half of the releases between values pass a non-nil reason to Release. A fixed-size scalar read that failed is tried again three times on the same reader.",
 		Required: []string{"skip failures classified", "reader failures classified", "message-begin failures classified", "stream failures classified", "negative-size cases", "source-error sweeps"},
 		Quick:    []job{{"plain", 8}},
 		Thorough: []job{{"gcstress", 4}, {"plain", 16}},
@@ -137,14 +137,14 @@ var plans = map[string]plan{
 	},
 	"C19": {
 		Level:    "exploration",
-		Rule:     "case = random history of {Write, Read, ReadByte, Reset/Close, Truncate, IsOpen/Open/Flush} applied through the transport handle or the *bytes.Buffer handle of a buffer transport (created by NewBufferTransport or NewDefaultTransport) whose bytes.Buffer is embedded between a neighbouring buffer and live data; after every step transport, buffer and a plain bytes.Buffer model must agree (contents, Len, RemainingBytes) and adjacent memory must be intact; generic transport RemainingBytes for ReadableLen values {minInt..maxInt} and objects without ReadableLen; registered callbacks must receive the identical arguments and return the callback's result, unregistered ones three specific errors. Non-trivial iff both handles are used; distinct by history.",
+		Rule:     "case = random history of {Write, Read, ReadByte, Reset/Close, Truncate, IsOpen/Open/Flush} applied through the transport handle or the *bytes.Buffer handle of a buffer transport (created by NewBufferTransport or NewDefaultTransport) whose bytes.Buffer is embedded between a neighbouring buffer and live data; after every step transport, buffer and a plain bytes.Buffer model must agree (contents, Len, RemainingBytes) and adjacent memory must be intact; generic transport RemainingBytes for ReadableLen values {minInt..maxInt} and objects without ReadableLen; registered callbacks must receive the identical arguments and return the callback's result, unregistered ones three specific errors. Non-trivial iff both handles are used; distinct by history. Registered callbacks are also called with nil reader / writer / value.",
 		Required: []string{"buffer histories", "generic transport cases", "callback cases"},
 		Quick:    []job{{"plain", 4}, {"race", 2}},
 		Thorough: []job{{"gcstress", 4}, {"plain", 16}, {"race", 4}},
 	},
 	"C20": {
 		Level:    "exploration",
-		Rule:     "case = (conversion variant: the compiled go1.21+ file and the legacy pre-go1.21 file copied from /repo at check time, input shape): every length 0..300 and classes up to 1 MiB, byte slices with spare capacity 0/1/48, substrings at several offsets of a larger string backed by a mutable heap block with canary bytes; checks content, length, shared data pointer (a write through the slice is visible through the string), cap(StringToBinary(s)) == len(s), and that append(StringToBinary(s), ...) leaves the enclosing memory unchanged; nil / empty / zero-length-subslice inputs must not panic and must yield empty results. Non-trivial iff len >= 1 or the nil/empty distinction; distinct by (variant, shape).",
+		Rule:     "case = (conversion variant: the compiled go1.21+ file and the legacy pre-go1.21 file copied from /repo at check time, input shape): every length 0..300 and classes up to 1 MiB, byte slices with spare capacity 0/1/48, substrings at several offsets of a larger string backed by a mutable heap block with canary bytes; checks content, length, shared data pointer (a write through the slice is visible through the string), cap(StringToBinary(s)) == len(s), and that append(StringToBinary(s), ...) leaves the enclosing memory unchanged; nil / empty / zero-length-subslice inputs must not panic and must yield empty results. Non-trivial iff len >= 1 or the nil/empty distinction; distinct by (variant, shape). A third conversion variant passes an argument of a named slice type.",
 		Required: []string{"conversions checked", "empty/nil inputs checked"},
 		Quick:    []job{{"plain", 2}, {"race", 2}},
 		Thorough: []job{{"gcstress", 4}, {"plain", 4}, {"race", 2}, {"asan", 2}, {"go126", 2}},
